@@ -134,7 +134,7 @@ def opName : Op → String
   | .age i => "a" ++ toString i
 
 /-- the oracle: first against what the code is known to do (anything else is a new violation),
-    then against the property text (a difference there is one of the two recorded findings) -/
+    then against the property text (a difference there is the recorded finding C07-F1) -/
 def judge (line : String) : String :=
   let (c, o) := splitTab line
   match parse c with
@@ -154,12 +154,7 @@ def judge (line : String) : String :=
         | none => "ok"
         | some k =>
           let e := (cs.ops.map opName).getD k "?"
-          -- which of the two known deviations?  escalation changes the signal lists
-          let esc := match rest[k]?, (if k = 0 then some b0 else (rest[k-1]?).map (·.1)) with
-            | some (a, _), some b => a.pSig != b.pSig || a.gSig != b.gSig
-            | _, _ => false
-          if esc then s!"bad C07-F1 step {k} ({e}): Escalate delivered the failure to the parent's Receive, the grandparent got nothing"
-          else s!"bad C07-F2 step {k} ({e}): restart count of a sibling restarted while running was reset instead of bumped"
+          s!"bad C07-F1 step {k} ({e}): Escalate delivered the failure to the parent's Receive, the grandparent got nothing"
 
 def run (args : List String) : IO UInt32 := runWith args model judge
 
